@@ -367,6 +367,29 @@ def np_same(before, e0, after, e1, outs, factor=1):
     return err <= TOL * scale, f"max abs err {err:.3e}"
 
 
+def robust_coq_cases(ctx, name, header, cases, shard):
+    """ctx.coq_cases with a generous timeout; shards that died without any output (killed by the timeout on an
+    oversubscribed machine - not a Coq error) are re-run once, two at a time."""
+    import re
+
+    failed, errors = ctx.coq_cases(name, header, cases, shard=shard, timeout=1500)
+    real, retry = [], []
+    for path, err in errors:
+        m = re.search(r"cases_%s_(\d+)\.v$" % re.escape(name), path)
+        if m and not str(err).strip():
+            si = int(m.group(1))
+            retry += cases[si * shard:(si + 1) * shard]
+        else:
+            real.append((path, err))
+    if retry:
+        ctx.bump("coq_shards_retried_after_timeout")
+        ctx.traces -= len(retry)  # they were not evaluated in the first attempt
+        f2, e2 = ctx.coq_cases(name + "_retry", header, retry, shard=max(20, shard // 3), timeout=3000, jobs=2)
+        failed += f2
+        real += e2
+    return failed, real
+
+
 class Collector:
     def __init__(self):
         self.cases = []
@@ -699,7 +722,7 @@ def finder_stream(ctx):
     cid = finder_float_cases(ctx, cases, info, cid)
     header = ("From Coq Require Import ZArith QArith Arith List Bool.\nFrom QV Require Import C04.Model.\nImport ListNotations.\n"
               "Close Scope Q_scope.\n")
-    failed, errors = ctx.coq_cases("finders", header, cases, shard=1000)
+    failed, errors = robust_coq_cases(ctx, "finders", header, cases, 1000 if ctx.quick else 600)
     for path, err in errors:
         ctx.broken_obligation("correspondence:finders:" + path.split("/")[-1], err)
     seen = set()
@@ -1623,7 +1646,7 @@ def correspondence(ctx):
     corpus_stream(ctx, col)
     integer_stream(ctx, col)
     exponent_stream(ctx, col)
-    failed, errors = ctx.coq_cases("passes", tm.HEADER, col.cases, shard=180)
+    failed, errors = robust_coq_cases(ctx, "passes", tm.HEADER, col.cases, 180)
     for path, err in errors:
         ctx.broken_obligation("correspondence:" + path.split("/")[-1], err)
     seen = set()
